@@ -92,6 +92,11 @@ func ParseUFix64(s string) (*big.Int, error) {
 		return nil, errors.New("invalid negative integer part")
 	}
 
+	// A sign prefix is only allowed for the signed fixed-point types
+	if len(s) > 0 && s[0] == '+' {
+		return nil, errors.New("invalid sign prefix")
+	}
+
 	return NewUFix64(unsignedInteger, fractional, parsedScale)
 }
 
@@ -122,6 +127,11 @@ func ParseUFix128(s string) (*big.Int, error) {
 
 	if negative {
 		return nil, errors.New("invalid negative integer part")
+	}
+
+	// A sign prefix is only allowed for the signed fixed-point types
+	if len(s) > 0 && s[0] == '+' {
+		return nil, errors.New("invalid sign prefix")
 	}
 
 	return NewUFix128(unsignedInteger, fractional, parsedScale)
